@@ -22,43 +22,39 @@ type RedirectFlags struct {
 	EnableAll  bool
 }
 
-// readMessage parses and defragments a packet from a Transport. It returns
-// at most the bytes that have been reported by the packet
-func readMessage(in transport.Transport) (pt int, n int, msg []byte, err error) {
-	fragment := false
-	index := 0
-	buf := make([]byte, 4096)
+// maxPacketSize bounds what is buffered for one packet: the largest packet of the
+// protocol is a data packet with a 64 KiB payload
+const maxPacketSize = 128 * 1024
+
+// readMessage parses and defragments a packet from a Transport. Packet boundaries
+// are taken from the length field of the header only: a packet may arrive in any
+// number of reads and a read may carry more than one packet. Bytes that follow the
+// returned packet are kept in pending for the next call. It returns at most the
+// bytes that have been reported by the packet
+func readMessage(in transport.Transport, pending *[]byte) (pt int, n int, msg []byte, err error) {
+	buf := *pending
 
 	for {
+		if len(buf) >= 8 {
+			sz := binary.LittleEndian.Uint32(buf[4:8])
+			if sz < 8 || sz > maxPacketSize {
+				return 0, 0, []byte{0, 0}, errors.New("packet size out of bounds")
+			}
+			if uint32(len(buf)) >= sz {
+				pt, _, msg, err := readHeader(buf[:sz])
+				if err != nil {
+					return 0, 0, []byte{0, 0}, err
+				}
+				*pending = buf[sz:]
+				return int(pt), int(sz), msg, nil
+			}
+		}
+
 		size, pkt, err := in.ReadPacket()
 		if err != nil {
 			return 0, 0, []byte{0, 0}, err
 		}
-
-		// check for fragments
-		var pt uint16
-		var sz uint32
-		var msg []byte
-
-		if !fragment {
-			pt, sz, msg, err = readHeader(pkt[:size])
-			if err != nil {
-				fragment = true
-				index = copy(buf, pkt[:size])
-				continue
-			}
-			index = 0
-		} else {
-			fragment = false
-			pt, sz, msg, err = readHeader(append(buf[:index], pkt[:size]...))
-			// header is corrupted even after defragmenting
-			if err != nil {
-				return 0, 0, []byte{0, 0}, err
-			}
-		}
-		if !fragment {
-			return int(pt), int(sz), msg, nil
-		}
+		buf = append(buf, pkt[:size]...)
 	}
 }
 
